@@ -127,10 +127,28 @@ def check(ctx):
 # R10.5 refresh triggers in TDGLSolver.update
 # ---------------------------------------------------------------------------
 
+def update_roles(fn):
+    """Locals of TDGLSolver.update identified by role (not by name): the induced potential is what get_induced_vector_potential
+    returns first; the applied potential is what is remembered in self.current_A_applied."""
+    induced = applied = None
+    for n in own_nodes(fn):
+        if isinstance(n, ast.Assign) and isinstance(n.value, ast.Call) and norm(n.value.func) == "self.get_induced_vector_potential":
+            t = n.targets[0]
+            if isinstance(t, ast.Tuple) and t.elts and isinstance(t.elts[0], ast.Name):
+                induced = t.elts[0].id
+        if isinstance(n, ast.Assign) and isinstance(n.value, ast.Name) and any(
+                isinstance(t, ast.Attribute) and norm(t) == "self.current_A_applied" for t in n.targets):
+            applied = n.value.id
+    if induced is None or applied is None:
+        raise AnalysisError("TDGLSolver.update: cannot identify the induced / applied potential locals by their roles")
+    return induced, applied
+
+
 def check_triggers(ctx):
     repo = ctx.repo
     fu = repo.func(SOLVER, "TDGLSolver.update")
     fn = fu.node
+    induced, applied = update_roles(fn)
     pm = parent_map(fn)
     env = repo.local_types(fu)
     calls = []
@@ -168,7 +186,7 @@ def check_triggers(ctx):
                 else:
                     flags.append(f"{norm(g.test)} is {br}")
         inst = f"L{call.lineno} {norm(call)} under [{'; '.join(flags)}]"
-        if any("A_induced" in a or "induced" in a for a in arg_names):
+        if induced in arg_names:
             seen_screening = True
             ok = not value_guards and any("include_screening" in f for f in flags) and \
                 any(isinstance(g, (ast.For, ast.While)) for g, _ in guards)
@@ -247,6 +265,7 @@ def screening_staleness(ctx, fu, calls):
     """R10.6: with screening on, the psi update always runs with link variables of the latest induced potential."""
     from ..cfg import build_cfg
     fn = fu.node
+    induced, applied = update_roles(fn)
     cfg = build_cfg(fn)
     euler = [n for n in cfg.nodes if n.kind == "stmt" and n.ast is not None and any(
         isinstance(c, ast.Call) and norm(c.func) == "self.adaptive_euler_step" for c in ast.walk(n.ast))]
@@ -256,16 +275,16 @@ def screening_staleness(ctx, fu, calls):
     refresh = []
     for c in calls:
         names = {x.id for a in c.args for x in ast.walk(a) if isinstance(x, ast.Name)}
-        if "A_induced" in names and "current_A_applied" in names:
+        if induced in names and applied in names:
             for n in cfg.nodes:
                 if n.kind == "stmt" and n.ast is not None and any(x is c for x in ast.walk(n.ast)):
                     refresh.append(n.id)
     defs = [n for n in cfg.nodes if n.kind == "stmt" and isinstance(n.ast, ast.Assign) and any(
-        isinstance(x, ast.Name) and x.id == "A_induced" and isinstance(x.ctx, ast.Store) for t in n.ast.targets for x in ast.walk(t))]
+        isinstance(x, ast.Name) and x.id == induced and isinstance(x.ctx, ast.Store) for t in n.ast.targets for x in ast.walk(t))]
     # prune the branches on which screening is off
     off = set()
     for n in cfg.nodes:
-        if n.kind == "if" and n.ast is not None and norm(n.ast.test).endswith("options.include_screening"):
+        if n.kind == "if" and n.ast is not None and norm(n.ast.test).endswith(".include_screening"):
             off |= {v for v, lab in cfg.succ[n.id] if lab == "false"}
     for d in defs:
         wit = cfg.path(d.id, E, skip=set(refresh) | off, skip_edges=("exc",))
